@@ -13,3 +13,5 @@ PROPS['C11'] = ('sched_family', 'c11')
 PROPS['C10'] = ('sched_family', 'c10')
 PROPS['C15'] = ('core_family', 'c15')
 PROPS['C13'] = ('core_family', 'c13')
+PROPS['C03'] = ('auth_family', 'c03')
+PROPS['C04'] = ('auth_family', 'c04')
